@@ -201,7 +201,11 @@ func Explore(run *ev.Run, prop string, sc Scenario) Stats {
 			_, obsA, vA, eA := runOnce(sc, x.Choices)
 			_, obsB, vB, eB := runOnce(sc, x.Choices)
 			if eA != nil || eB != nil || obsA != obs || obsB != obs || len(vA) != len(viols) || len(vB) != len(viols) {
-				run.HarnessError(fmt.Sprintf("%s/%s: violation not reproducible on replay (choices %v): %v %v", prop, sc.Name, x.Choices, eA, eB))
+				ch := x.Choices
+			if len(ch) > 40 {
+				ch = ch[:40]
+			}
+			run.HarnessError(fmt.Sprintf("%s/%s: violation not reproducible on replay (first choices %v): %v %v", prop, sc.Name, ch, eA, eB))
 				st.Complete = false
 				return
 			}
